@@ -77,7 +77,7 @@ def impl(case):
     f = the_file(case)
     if case['kind'] == 'reads':
         def run():
-            u = mciipm.Unblock1014(in_stream(f))
+            u = mciipm.Unblock1014(in_stream(f, True))
             return [u.read(n) if n else u.read() for n in case['ns']]
         return {'out': outcome(run, hlist)}
     if case['kind'] == 'reader':
